@@ -801,9 +801,19 @@ def _process_step_result_tick(
             if retries is not None:
                 _next_params = inspect.signature(retries.next).parameters
                 _seed_kwarg = {"seed": jitter_seed} if "seed" in _next_params else {}
-                delay = retries.next(
-                    elapsed_time, failures, result.exception, **_seed_kwarg
-                )
+                try:
+                    delay = retries.next(
+                        elapsed_time, failures, result.exception, **_seed_kwarg
+                    )
+                    if delay is not None:
+                        delay = float(delay)
+                except Exception:
+                    # A broken user-supplied policy/predicate must not take the
+                    # control loop down: treat the failure as not retryable.
+                    logger.exception(
+                        "retry policy of step %s raised; not retrying", tick.step_name
+                    )
+                    delay = None
             else:
                 delay = None
             if delay is not None:
